@@ -375,6 +375,29 @@ func OpTable(r *rand.Rand) *spec.Grammar {
 	g.Rules = append(g.Rules, spec.Rule{Lhs: 0, Rhs: []spec.Sym{{T: true, I: num}}, Prec: -1})
 	// shuffle rule order: r/r never arises here, file order must not matter
 	r.Shuffle(len(g.Rules), func(i, j int) { g.Rules[i], g.Rules[j] = g.Rules[j], g.Rules[i] })
+	if r.Intn(6) == 0 {
+		// more than 127 / 255 precedence levels: padding levels (a pseudo token each, never used in a
+		// rule, appended after the real tokens) are interleaved with the real ones
+		npad := 120 + r.Intn(150)
+		precs := g.Precs
+		g.Precs = nil
+		at := make([]int, npad) // number of real levels before each padding level
+		for i := range at {
+			at[i] = r.Intn(len(precs) + 1)
+		}
+		for k := 0; k <= len(precs); k++ {
+			for i := range at {
+				if at[i] == k {
+					ti := len(g.Tokens)
+					g.Tokens = append(g.Tokens, spec.Token{Name: fmt.Sprintf("PAD%03d", i), Decl: "prec"})
+					g.Precs = append(g.Precs, spec.PrecLine{Assoc: []string{"left", "right", "nonassoc"}[r.Intn(3)], Toks: []int{ti}})
+				}
+			}
+			if k < len(precs) {
+				g.Precs = append(g.Precs, precs[k])
+			}
+		}
+	}
 	g.DefaultActs()
 	return g
 }
@@ -460,9 +483,10 @@ func rich(r *rand.Rand, c RichCfg) *spec.Grammar {
 		usedName[n] = true
 		return n
 	}
-	litChars := []byte("+-*/=<>()[],.!?&^~#@:;|%\"'{}$`\\xXaA09zZ")
+	// ASCII punctuation and letters, literals outside ASCII (pairs that share their first UTF-8 byte), control characters and line separators
+	litChars := []rune("+-*/=<>()[],.!?&^~#@:;|%\"'{}$`\\xXaA09zZéè×÷€→←加减\t\n\r\u2028\u0001")
 	if !c.Names {
-		litChars = litPool
+		litChars = []rune(string(litPool))
 	}
 	for i := 0; i < nT; i++ {
 		t := spec.Token{Decl: "token"}
@@ -1020,6 +1044,9 @@ func Big(r *rand.Rand) *spec.Grammar {
 // items of many rules at many dot positions, including two-digit rule numbers
 // and two-digit dots.
 func LongRules(r *rand.Rand) *spec.Grammar {
+	if r.Intn(2) == 0 {
+		return longDistinct(r)
+	}
 	for {
 		g := &spec.Grammar{}
 		nT := 2 + r.Intn(3)
@@ -1053,6 +1080,178 @@ func LongRules(r *rand.Rand) *spec.Grammar {
 				g.Rules = append(g.Rules, ru)
 			}
 		}
+		g.DefaultActs()
+		if Usable(g) {
+			return g
+		}
+	}
+}
+
+// Huge produces "command table" grammars beyond the 8-bit sizes: 260-340
+// productions and 260-500 LR(0) states over 20-50 tokens. Every command is a
+// key of two or three tokens (all keys distinct, none a prefix of another),
+// optionally followed by a small body nonterminal and a terminator. The
+// grammars are LALR(1) by construction (the reference still checks).
+func Huge(r *rand.Rand) *spec.Grammar {
+	g := &spec.Grammar{}
+	nT := 20 + r.Intn(31)
+	for i := 0; i < nT; i++ {
+		g.Tokens = append(g.Tokens, spec.Token{Name: fmt.Sprintf("K%02d", i), Decl: "token", Tag: "s"})
+	}
+	g.NTs = []spec.NT{{Name: "Prog", Tag: "s"}, {Name: "Cmd", Tag: "s"}, {Name: "BodyA", Tag: "s"}, {Name: "BodyB", Tag: "s"}}
+	T := func(i int) spec.Sym { return spec.Sym{T: true, I: i} }
+	N := func(i int) spec.Sym { return spec.Sym{I: i} }
+	add := func(lhs int, rhs ...spec.Sym) {
+		g.Rules = append(g.Rules, spec.Rule{Lhs: lhs, Rhs: rhs, Prec: -1})
+	}
+	add(0, N(1))
+	add(0, N(0), N(1))
+	// bodies use the first four tokens only; keys never start with them
+	add(2, T(0))
+	add(2, N(2), T(1))
+	add(3, T(2), N(3))
+	add(3, T(3))
+	n := 256 + r.Intn(80)
+	seen := map[[3]int]bool{}
+	for len(g.Rules) < n {
+		k := [3]int{4 + r.Intn(nT-4), 4 + r.Intn(nT-4), -1}
+		three := r.Intn(3) != 0
+		if three {
+			k[2] = 4 + r.Intn(nT-4)
+		}
+		// prefix-freedom: a two-token key and a three-token key must not share the two tokens
+		if seen[k] || seen[[3]int{k[0], k[1], -1}] || (!three && seen[[3]int{k[0], k[1], -2}]) {
+			continue
+		}
+		seen[k] = true
+		if three {
+			seen[[3]int{k[0], k[1], -2}] = true // marks "some three-token key starts like this"
+		}
+		rhs := []spec.Sym{T(k[0]), T(k[1])}
+		if three {
+			rhs = append(rhs, T(k[2]))
+		}
+		switch r.Intn(4) {
+		case 0:
+			rhs = append(rhs, N(2), T(4+r.Intn(nT-4)))
+		case 1:
+			rhs = append(rhs, N(3))
+		}
+		add(1, rhs...)
+	}
+	g.DefaultActs()
+	return g
+}
+
+// Ladder produces deep dependency chains: 40-300 nonterminals, each of which
+// becomes productive (and gets its FIRST set) only through the next one. The
+// rules are written top-down, bottom-up or shuffled, so that fixpoint
+// computations need as many rounds as the chain is long.
+func Ladder(r *rand.Rand) *spec.Grammar {
+	g := &spec.Grammar{}
+	nT := 2 + r.Intn(6)
+	for i := 0; i < nT; i++ {
+		g.Tokens = append(g.Tokens, spec.Token{Name: fmt.Sprintf("T%c", 'a'+i), Decl: "token", Tag: "s"})
+	}
+	depth := 40 + r.Intn(60)
+	switch r.Intn(3) {
+	case 0:
+		depth = 60 + r.Intn(12) // around 64
+	case 1:
+		depth = 120 + r.Intn(180) // around 128 and 256
+	}
+	for i := 0; i <= depth; i++ {
+		g.NTs = append(g.NTs, spec.NT{Name: fmt.Sprintf("L%03d", i), Tag: "s"})
+	}
+	T := func(i int) spec.Sym { return spec.Sym{T: true, I: i} }
+	var groups [][]spec.Rule
+	for i := 0; i < depth; i++ {
+		var gr []spec.Rule
+		next := spec.Sym{I: i + 1}
+		switch r.Intn(6) {
+		case 0: // a token in front (LL(1) together with the unit rule only if it is not in FIRST(next): use one alternative)
+			gr = append(gr, spec.Rule{Lhs: i, Rhs: []spec.Sym{T(r.Intn(nT)), next}, Prec: -1})
+		case 1: // a token behind
+			gr = append(gr, spec.Rule{Lhs: i, Rhs: []spec.Sym{next, T(r.Intn(nT))}, Prec: -1})
+		default:
+			gr = append(gr, spec.Rule{Lhs: i, Rhs: []spec.Sym{next}, Prec: -1})
+		}
+		groups = append(groups, gr)
+	}
+	groups = append(groups, []spec.Rule{{Lhs: depth, Rhs: []spec.Sym{T(r.Intn(nT))}, Prec: -1}})
+	switch r.Intn(3) {
+	case 1: // bottom-up
+		for i, j := 0, len(groups)-1; i < j; i, j = i+1, j-1 {
+			groups[i], groups[j] = groups[j], groups[i]
+		}
+	case 2:
+		r.Shuffle(len(groups), func(i, j int) { groups[i], groups[j] = groups[j], groups[i] })
+	}
+	for _, gr := range groups {
+		g.Rules = append(g.Rules, gr...)
+	}
+	g.DefaultActs()
+	return g
+}
+
+// longDistinct: one or two early rules of 11-14 mostly distinct terminals and a
+// dozen or more short rules that each start with a terminal of their own, so
+// that many LR(0) states are single items whose rule index and dot position
+// both reach two digits.
+func longDistinct(r *rand.Rand) *spec.Grammar {
+	for {
+		g := &spec.Grammar{}
+		nT := 14 + r.Intn(9)
+		nN := 2 + r.Intn(3)
+		for i := 0; i < nT; i++ {
+			g.Tokens = append(g.Tokens, spec.Token{Name: fmt.Sprintf("T%c", 'a'+i), Decl: "token", Tag: "s"})
+		}
+		for i := 0; i < nN; i++ {
+			g.NTs = append(g.NTs, spec.NT{Name: fmt.Sprintf("N%c", 'A'+i), Tag: "s"})
+		}
+		T := func(i int) spec.Sym { return spec.Sym{T: true, I: i} }
+		// short rules first or long rules first
+		var long, short []spec.Rule
+		nLong := 1 + r.Intn(2)
+		for l := 0; l < nLong; l++ {
+			ru := spec.Rule{Lhs: 0, Prec: -1}
+			perm := r.Perm(nT)
+			n := 11 + r.Intn(4)
+			for j := 0; j < n && j < nT; j++ {
+				if j > 0 && r.Intn(9) == 0 {
+					ru.Rhs = append(ru.Rhs, spec.Sym{I: 1 + r.Intn(nN-1)})
+				} else {
+					ru.Rhs = append(ru.Rhs, T(perm[j]))
+				}
+			}
+			long = append(long, ru)
+		}
+		first := r.Perm(nT)
+		nShort := 10 + r.Intn(14)
+		for k := 0; k < nShort; k++ {
+			lhs := k % nN
+			if k >= nN {
+				lhs = r.Intn(nN)
+			}
+			ru := spec.Rule{Lhs: lhs, Prec: -1, Rhs: []spec.Sym{T(first[k%nT])}}
+			for j := 0; j < r.Intn(3); j++ {
+				if r.Intn(4) == 0 {
+					ru.Rhs = append(ru.Rhs, spec.Sym{I: r.Intn(nN)})
+				} else {
+					ru.Rhs = append(ru.Rhs, T(r.Intn(nT)))
+				}
+			}
+			short = append(short, ru)
+		}
+		// the long rules sit among the first nine rules of the file
+		at := r.Intn(8)
+		if at > len(short) {
+			at = len(short)
+		}
+		g.Rules = append(g.Rules, short[:at]...)
+		g.Rules = append(g.Rules, long...)
+		g.Rules = append(g.Rules, short[at:]...)
+		// rules of one nonterminal need not be adjacent (the renderer writes one group per run)
 		g.DefaultActs()
 		if Usable(g) {
 			return g
